@@ -187,7 +187,7 @@ func InjectDefect(src *choice.Src, c *Cfg) (string, YMut) {
 		}
 		return cs[src.Draw("defect.svc", len(cs))]
 	}
-	switch k := src.Draw("defect.kind", 27); k {
+	switch k := src.Draw("defect.kind", 29); k {
 	case 0:
 		i := ensureSvc()
 		c.Services[i].Args = append(c.Services[i].Args, Arg{Kind: "svc", S: "ghost" + strconv.Itoa(src.Draw("ghost", 3))})
@@ -284,8 +284,46 @@ func InjectDefect(src *choice.Src, c *Cfg) (string, YMut) {
 		return paramCycleWeb(src, c), nil
 	case 25, 26:
 		return oddScalar(src, c, ensureSvc()), nil
+	case 27, 28:
+		return typoRefs(src, c, ensureSvc()), nil
 	}
 	return "", nil
+}
+
+// typoRefs: references to names that do not exist but are one edit away from two or three that do
+// (cacheA / cacheB / cacheC and a reference to "cache"): whatever a diagnostic says about near misses,
+// it says it reproducibly. Several such references at once, to services and to parameters.
+func typoRefs(src *choice.Src, c *Cfg, i int) string {
+	fx := `"` + FxPath + `"`
+	base := choice.Pick(src, "typo.base", []string{"cache", "mailer-", "repo.", "Store"})
+	n := src.Range("typo.n", 2, 3)
+	for k := 0; k < n; k++ {
+		name := base + string(rune('A'+k))
+		if c.Svc(name) == nil {
+			c.Services = append(c.Services, Svc{Name: name, Ctor: fx + ".NewNode", Args: []Arg{{Kind: "str", S: name}}})
+		}
+	}
+	pbase := choice.Pick(src, "typo.pbase", []string{"db.host", "port", "app_"})
+	for k := 0; k < n; k++ {
+		name := pbase + string(rune('1'+k))
+		if c.Param(name) == nil {
+			c.Params = append(c.Params, Param{Name: name, V: Arg{Kind: "int", I: int64(k)}})
+		}
+	}
+	s := &c.Services[i]
+	if src.Bool("typo.svc") {
+		s.Args = append(s.Args, Arg{Kind: "svc", S: base + choice.Pick(src, "typo.svcsuffix", []string{"", "0", "Z"})})
+	}
+	if src.Bool("typo.param") || len(s.Args) < 2 {
+		s.Args = append(s.Args, Arg{Kind: "pattern", Chunks: []Chunk{{Kind: "ref", S: pbase + choice.Pick(src, "typo.psuffix", []string{"", "0", "9"})}}})
+	}
+	if src.Bool("typo.dec") {
+		c.Decorators = append(c.Decorators, Dec{Tag: "typo.tag", Fn: fx + ".Decorate", Args: []Arg{{Kind: "svc", S: base + "0"}}})
+	}
+	if src.Bool("typo.pp") {
+		c.Params = append(c.Params, Param{Name: "typo.dsn", V: Arg{Kind: "pattern", Chunks: []Chunk{{Kind: "ref", S: pbase}, {Kind: "lit", S: ":3306"}}}})
+	}
+	return "typo-refs"
 }
 
 // oddScalars are plain scalars that a YAML 1.1/1.2 decoder turns into something other than a string, an
